@@ -57,7 +57,11 @@ pub fn literal<'a>() -> impl Parser<'a, &'a str, Literal, Err<'a>> + Clone {
 
         let float = just("-")
             .or_not()
-            .then(text::int(10).then_ignore(just(".")).then(text::int(10)))
+            .then(
+                text::int(10)
+                    .then_ignore(just("."))
+                    .then(text::digits(10).at_least(1).to_slice()),
+            )
             .map(|(sign, (i, f))| {
                 let sign = sign.unwrap_or_default();
                 Literal::Float(format!("{sign}{i}.{f}").parse::<f64>().expect("infallible"))
